@@ -9,27 +9,29 @@ from . import core
 from .core import ENGINE, Sym, SymR, mk, lift, F0, F1, RV
 
 
-def _alg(name, poly, lo, hi):
+def _alg(name, poly, lo, hi, square=None):
     """algebraic constant: z3 Real pinned by poly(v)==0 and lo<v<hi (isolating interval)"""
     key = ("alg", name)
     if key not in ENGINE.uf:
         v = z3.Real(name)
         ENGINE.uf[key] = v
+        if square is not None:
+            ENGINE.square_rules[name] = square() if callable(square) else z3.RealVal(square)
         ENGINE.assume(z3.And(poly(v) == 0, v > RV(Fraction(lo)), v < RV(Fraction(hi))),
                       "algebraic constant %s (exact, isolating interval)" % name, fact=True)
     return ENGINE.uf[key]
 
 
 def r2():
-    return _alg("r2", lambda v: v * v - 2, "1.41", "1.42")
+    return _alg("r2", lambda v: v * v - 2, "1.41", "1.42", square=2)
 
 
 def r3():
-    return _alg("r3", lambda v: v * v - 3, "1.73", "1.74")
+    return _alg("r3", lambda v: v * v - 3, "1.73", "1.74", square=3)
 
 
 def r5():
-    return _alg("r5", lambda v: v * v - 5, "2.23", "2.24")
+    return _alg("r5", lambda v: v * v - 5, "2.23", "2.24", square=5)
 
 
 def _cs_first_octantish(p, q):
@@ -66,10 +68,12 @@ def _cs_first_octantish(p, q):
         k %= 20
         # cos36 = (1+r5)/4, cos72=(r5-1)/4 ; sin18 = (r5-1)/4, cos18 = s18c
         def c18():
-            return _alg("cos18", lambda v: 16 * v * v - (10 + 2 * r5()), "0.95", "0.96")
+            return _alg("cos18", lambda v: 16 * v * v - (10 + 2 * r5()), "0.95", "0.96",
+                        square=lambda: (10 + 2 * r5()) / 16)
 
         def s36():
-            return _alg("sin36", lambda v: 16 * v * v - (10 - 2 * r5()), "0.58", "0.59")
+            return _alg("sin36", lambda v: 16 * v * v - (10 - 2 * r5()), "0.58", "0.59",
+                        square=lambda: (10 - 2 * r5()) / 16)
 
         def base(k):  # 0..5 -> k*18deg
             if k == 0:
